@@ -311,9 +311,11 @@ def run_property(prop, tier, seed, cases, mode, functions_encoded, bounds, extra
         findings.append(engine_g.Finding(prop, "generated_code_rejected_by_rustc", c, key=path, ns=ns, detail={"evaluator": why},
                                          role=c.roles.get((ns, tuple(path))) or c.roles.get("*")))
     if validate is None:
-        validate = 1 if tier == "quick" else 6
+        validate = 3 if tier == "quick" else 8
     val_total, val_mismatch, val_viol = (0, [], [])
-    if validate and not findings:
+    known_now = report.load_known()
+    unknown_findings = [f for f in findings if report.matches(f.signature(), known_now, prop) is None]
+    if validate and not unknown_findings:
         val_total, val_mismatch, val_viol = validate_natively(prop, cases, stats.host_results, cldr, validate, validate_per_project)
         for tag, why in val_mismatch:
             stats.inconclusive.append((tag, "ENCODER-MISMATCH " + why))
